@@ -186,3 +186,20 @@ LEVEL_TEXT += _ADD13
 _ADD22 = ' Borrowed: R09.6, R13.3, R08.2 (the option chain that selects no_copy_collections).'
 EXPLANATION += _ADD22
 LEVEL_TEXT += _ADD22
+
+
+_run_before_r5 = run
+
+
+def run(repo, rep, tier):  # noqa: F811 -- round-5 shape rules appended to the rules above
+    _run_before_r5(repo, rep, tier)
+    if getattr(rep, "borrowed", False):
+        return
+    from ..core import round5 as _r5
+    _r5.valuespec_ownership(repo, rep, "R18.8")
+    _r5.positional_annotation_lookup(repo, rep, "R18.9")
+
+
+_ADDR5B = " R18.8: ValueSpec(...) is constructed only at the five root sites (field pack / unpack, codec encode / decode, class-level discriminator); nested positions derive their spec with spec.copy(...), which carries no_copy_collections and the other options down. R18.9: the input annotation of a user's deserialize callable is looked up by position 0, never by parameter name."
+EXPLANATION += _ADDR5B
+LEVEL_TEXT += _ADDR5B
